@@ -121,7 +121,12 @@ class PolygonBase(SingleShapeBase, PolygonLikeMixin, ABC):
             return False
 
         # No edges intersect, so make sure one point along the boundary is
-        # contained
+        # contained and that the shape does not surround one of this shape's holes
+        if isinstance(shape, PolygonLike) and any(
+            hole.bounding_coords()[0] in shape for hole in self.holes
+        ):
+            return False
+
         return o_edges[0][0][0] in self
 
     def edges(self, **kwargs) -> List[List[Tuple[Coordinate, Coordinate]]]:
